@@ -596,3 +596,190 @@ fn check_ranges(n: usize) {
 #[kani::proof] #[kani::unwind(6)] fn bmoc_ranges_1() { check_ranges(1) }
 #[kani::proof] #[kani::unwind(6)] fn bmoc_ranges_2() { check_ranges(2) }
 #[kani::proof] #[kani::unwind(6)] fn bmoc_ranges_3() { check_ranges(3) }
+
+// ---------------------------------------------------------------------------------------------
+// C15 builders (bounded): pack, to_lower_depth, fixed-depth builder
+// ---------------------------------------------------------------------------------------------
+struct OpN { dmax: u8, n: usize, e: [E; 5], raw: [u64; 5] }
+fn any_opn(dmax: u8, n: usize) -> OpN {
+  let e = [any_e(dmax), any_e(dmax), any_e(dmax), any_e(dmax), any_e(dmax)];
+  let mut k = 1;
+  while k < 5 { if k < n { kani::assume(e_hi(&e[k - 1], dmax) <= e_lo(&e[k], dmax)); } k += 1; }
+  let mut raw = [0u64; 5];
+  let mut k = 0;
+  while k < 5 { raw[k] = build_raw_value(e[k].d, e[k].h, e[k].f, dmax); k += 1; }
+  OpN { dmax, n, e, raw }
+}
+fn stn(o: &OpN, c: u64) -> u8 {
+  let mut k = 0;
+  while k < 5 { if k < o.n && e_lo(&o.e[k], o.dmax) <= c && c < e_hi(&o.e[k], o.dmax) { return if o.e[k].f { 2 } else { 1 }; } k += 1; }
+  0
+}
+fn vec_of(o: &OpN) -> Vec<u64> {
+  match o.n { 0 => vec![], 1 => vec![o.raw[0]], 2 => vec![o.raw[0], o.raw[1]], 3 => vec![o.raw[0], o.raw[1], o.raw[2]],
+              4 => vec![o.raw[0], o.raw[1], o.raw[2], o.raw[3]], _ => vec![o.raw[0], o.raw[1], o.raw[2], o.raw[3], o.raw[4]] }
+}
+fn is_packed(v: &[u64], dmax: u8) -> bool {
+  let mut k = 0;
+  while k + 3 < v.len() {
+    let e = v[k]; let dd = sp_dd(e);
+    if dd < dmax && sp_full(e) && sp_hash(e) & 3 == 0 && sp_full(v[k + 1]) && sp_full(v[k + 2]) && sp_full(v[k + 3])
+      && sp_dd(v[k + 1]) == dd && sp_dd(v[k + 2]) == dd && sp_dd(v[k + 3]) == dd
+      && sp_hash(v[k + 1]) == sp_hash(e) + 1 && sp_hash(v[k + 2]) == sp_hash(e) + 2 && sp_hash(v[k + 3]) == sp_hash(e) + 3 { return false; }
+    k += 1;
+  }
+  true
+}
+
+/// pack: the cell -> state map is unchanged, the result is well formed and has no four full siblings
+fn check_pack(n: usize) {
+  let dmax: u8 = kani::any();
+  kani::assume(1 <= dmax && dmax <= 2);
+  let a = any_opn(dmax, n);
+  let c: u64 = kani::any();
+  kani::assume(c < n_hash(dmax));
+  let mut b = BMOCBuilderUnsafe { depth_max: dmax, entries: Some(vec_of(&a)) };
+  let out = b.pack();
+  assert!(wf(&out, dmax), "C15/C09 pack output well formed");
+  assert!(state_of(&out, c) == stn(&a, c), "C15 pack never changes the cell -> state map");
+  assert!(is_packed(&out, dmax), "C15/C06 pack leaves no four full siblings");
+  assert!(out.len() <= n, "pack never adds entries");
+  kani::cover!(n < 4 || out.len() + 3 == n, "one merge happened");
+  kani::cover!(n < 5 || (out.len() == 2 && dmax == 2), "merge plus another entry");
+}
+#[kani::proof] #[kani::unwind(6)] fn bmoc_pack_3() { check_pack(3) }
+#[kani::proof] #[kani::unwind(6)] fn bmoc_pack_4() { check_pack(4) }
+#[kani::proof] #[kani::unwind(7)] fn bmoc_pack_5() { check_pack(5) }
+
+/// to_lower_depth(nd): a coarse cell is present iff it contained something; full iff it was an
+/// entry of depth <= nd that was full (a group of deeper cells always becomes partial)
+fn check_lower(n: usize) {
+  let dmax: u8 = kani::any(); let nd: u8 = kani::any();
+  kani::assume(1 <= dmax && dmax <= 2 && nd < dmax);
+  let a = any_opn(dmax, n);
+  let c: u64 = kani::any();                    // a cell of the NEW deepest level nd
+  kani::assume(c < n_hash(nd));
+  let b = BMOCBuilderUnsafe { depth_max: dmax, entries: None };
+  let out = b.to_lower_depth(nd, vec_of(&a));
+  assert!(wf(&out, nd), "C15/C09 to_lower_depth output well formed at the new depth");
+  // expected state of coarse cell c: scan the old deepest cells under c
+  let sh = 2 * (dmax - nd) as u32;
+  let mut any_cov = false; let mut all_full_by_coarse = false;
+  let mut k = 0;
+  while k < 5 {
+    if k < n {
+      let l = e_lo(&a.e[k], dmax); let h = e_hi(&a.e[k], dmax);
+      if (l >> sh) <= c && c < ((h - 1) >> sh) + 1 { any_cov = true; if a.e[k].d <= nd && a.e[k].f { all_full_by_coarse = true; } }
+    }
+    k += 1;
+  }
+  let got = state_of(&out, c);
+  assert!((got != 0) == any_cov, "C15 lower depth keeps a coarse cell iff it contained something");
+  if got == 2 { assert!(all_full_by_coarse, "C15 lower depth marks a coarse cell full only if it was entirely covered by full cells"); }
+  if all_full_by_coarse { assert!(got == 2, "C15 a full cell of depth <= new depth stays full"); }
+  kani::cover!(n == 0 || got == 1, "group of deeper cells became a partial coarse cell");
+  kani::cover!(n == 0 || got == 2, "coarse full cell kept");
+}
+#[kani::proof] #[kani::unwind(8)] fn bmoc_lower_1() { check_lower(1) }
+#[kani::proof] #[kani::unwind(8)] fn bmoc_lower_2() { check_lower(2) }
+#[kani::proof] #[kani::unwind(8)] fn bmoc_lower_3() { check_lower(3) }
+#[kani::proof] #[kani::unwind(8)] fn bmoc_lower_4() { check_lower(4) }
+
+/// buff_to_bmoc on a sorted duplicate-free buffer of n hashes at depth d: output covers exactly
+/// the buffer, all with the builder's flag, well formed
+fn check_buff(n: usize) {
+  let d: u8 = kani::any(); let flag: bool = kani::any();
+  kani::assume(d <= 2);
+  let h: [u16; 5] = kani::any();
+  let mut k = 0;
+  while k < 5 { if k < n { kani::assume((h[k] as u64) < n_hash(d)); if k > 0 { kani::assume(h[k - 1] < h[k]); } } k += 1; }
+  let buffer: Vec<u64> = match n { 1 => vec![h[0] as u64], 2 => vec![h[0] as u64, h[1] as u64], 3 => vec![h[0] as u64, h[1] as u64, h[2] as u64],
+    4 => vec![h[0] as u64, h[1] as u64, h[2] as u64, h[3] as u64], _ => vec![h[0] as u64, h[1] as u64, h[2] as u64, h[3] as u64, h[4] as u64] };
+  let mut b = BMOCBuilderFixedDepth { depth: d, bmoc: None, is_full: flag, buffer, sorted: true };
+  let out = b.buff_to_bmoc();
+  let c: u64 = kani::any();
+  kani::assume(c < n_hash(d));
+  let mut pushed = false; let mut k = 0;
+  while k < 5 { if k < n && h[k] as u64 == c { pushed = true; } k += 1; }
+  assert!(out.depth_max == d && wf(&out.entries, d), "C15/C09 buff_to_bmoc output well formed");
+  assert!(state_of(&out.entries, c) == if pushed { if flag { 2 } else { 1 } } else { 0 }, "C15 fixed-depth builder covers exactly the pushed cells with the requested flag");
+  kani::cover!(n < 4 || out.entries.len() + 3 == n, "an aligned run of four merged into the parent");
+}
+#[kani::proof] #[kani::unwind(8)] fn bmoc_buff_1() { check_buff(1) }
+#[kani::proof] #[kani::unwind(8)] fn bmoc_buff_4() { check_buff(4) }
+#[kani::proof] #[kani::unwind(8)] fn bmoc_buff_5() { check_buff(5) }
+
+/// largest_lower_cell_sequence_len(h, s): longest run h, h+1, ... at the head of s, capped at the
+/// alignment block of h (4^dd cells with dd = min(trailing zero pairs of h, depth))
+#[kani::proof] #[kani::unwind(8)]
+fn bmoc_seq_len_contract() {
+  let d: u8 = kani::any(); kani::assume(d <= 29);
+  let b = BMOCBuilderFixedDepth { depth: d, bmoc: None, is_full: true, buffer: Vec::new(), sorted: true };
+  let s: [u64; 5] = kani::any();
+  let n: usize = kani::any(); kani::assume(1 <= n && n <= 5);
+  let h = s[0];
+  kani::assume(h < n_hash(d));
+  let r = b.largest_lower_cell_sequence_len(h, &s[..n]);
+  let dd = { let t = (h.trailing_zeros() >> 1) as u8; if t < d { t } else { d } };
+  let cap = 1u64 << (2 * dd as u32);
+  assert!(r >= 1 && r <= n && (r as u64) <= cap, "C15 run length within the slice and the alignment block");
+  let mut k = 1;
+  while k < 5 { if k < r { assert!(s[k] == h + k as u64, "C15 run is consecutive"); } k += 1; }
+  if r < n && (r as u64) < cap { assert!(s[r] != h + r as u64, "C15 run is maximal"); }
+  kani::cover!(r == 4); kani::cover!(r == 1 && n > 1);
+}
+
+/// drain_buffer / push / to_bmoc: structural contract with BMOC::or replaced by a recording stub:
+/// every drained buffer is merged into the previous BMOC through or() (never concatenated), the
+/// buffer is emptied, `sorted` is truthful, duplicates of the last pushed value are ignored.
+static mut OR_CALLS: u32 = 0;
+/// false natively, true under Kani where it is stubbed: tells the harness whether or() is the recording stub
+fn or_is_stubbed() -> bool { false }
+fn or_is_stubbed_yes() -> bool { true }
+fn ghost_or(a: &BMOC, b: &BMOC) -> BMOC {
+  unsafe { OR_CALLS += 1; }
+  assert!(a.depth_max == b.depth_max, "or() operands of the fixed-depth builder share the depth");
+  BMOC { depth_max: a.depth_max, entries: Box::new([]) }
+}
+#[kani::proof] #[kani::stub(BMOC::or, ghost_or)] #[kani::stub(or_is_stubbed, or_is_stubbed_yes)] #[kani::unwind(8)] fn bmoc_fixed_builder_structure_cap1() { fixed_builder_structure(1) }
+#[kani::proof] #[kani::stub(BMOC::or, ghost_or)] #[kani::stub(or_is_stubbed, or_is_stubbed_yes)] #[kani::unwind(8)] fn bmoc_fixed_builder_structure_cap2() { fixed_builder_structure(2) }
+#[kani::proof] #[kani::stub(BMOC::or, ghost_or)] #[kani::stub(or_is_stubbed, or_is_stubbed_yes)] #[kani::unwind(8)] fn bmoc_fixed_builder_structure_cap3() { fixed_builder_structure(3) }
+fn fixed_builder_structure(cap: usize) {
+  let d: u8 = kani::any(); let flag: bool = kani::any();
+  kani::assume(d <= 2);
+  let mut b = BMOCBuilderFixedDepth::with_capacity(d, flag, cap);
+  kani::assume(b.buffer.capacity() == cap);
+  let h: [u16; 4] = kani::any();
+  let mut k = 0; let mut distinct_pushes = 0usize; let mut last: Option<u16> = None;
+  while k < 4 {
+    kani::assume((h[k] as u64) < n_hash(d));
+    b.push(h[k] as u64);
+    if last != Some(h[k]) || b.buffer.len() == 0 && false { }
+    k += 1;
+  }
+  // count expected drains: a drain happens each time the buffer reaches its capacity
+  let res = b.to_bmoc();
+  assert!(res.is_some(), "C15 the builder returns nothing only if nothing was pushed");
+  assert!(b.buffer.len() == 0 && b.sorted, "C15 buffer emptied and flag reset after draining");
+  let _ = (distinct_pushes, last);
+  if or_is_stubbed() {
+    // every drain after the first must go through or() (never a concatenation)
+    if cap == 1 && h[0] != h[1] && h[1] != h[2] && h[2] != h[3] { assert!(unsafe { OR_CALLS } == 3, "C15 every drained buffer is merged through or()"); }
+    if cap == 2 && h[0] != h[1] && h[1] != h[2] && h[2] != h[3] { assert!(unsafe { OR_CALLS } == 1, "C15 every drained buffer is merged through or()"); }
+    if cap == 3 && h[0] != h[1] && h[1] != h[2] && h[2] != h[3] { assert!(unsafe { OR_CALLS } == 1, "C15 every drained buffer is merged through or()"); }
+  } else if let Some(out) = &res {
+    // native playback: the real or() ran; check the property itself on the result
+    let mut c = 0u64;
+    while c < n_hash(d) {
+      let pushed = h[0] as u64 == c || h[1] as u64 == c || h[2] as u64 == c || h[3] as u64 == c;
+      assert!(n_covering(&out.entries, c) == if pushed { 1 } else { 0 }, "C15 fixed-depth builder covers exactly the pushed cells (each once)");
+      c += 1;
+    }
+  }
+  kani::cover!(unsafe { OR_CALLS } >= 1, "a second buffer was merged");
+}
+#[kani::proof] #[kani::unwind(8)]
+fn bmoc_fixed_builder_empty() {
+  let mut b = BMOCBuilderFixedDepth::with_capacity(kani::any(), kani::any(), 2);
+  assert!(b.to_bmoc().is_none(), "C15 nothing pushed => nothing returned");
+}
